@@ -18,7 +18,7 @@ def main():
     seams = [("hio.base.doing", "time"), ("hio.help.timing", "time"),
              ("hio.core.tcp.clienting", "socket"), ("hio.core.tcp.serving", "socket"),
              ("hio.core.tcp.clienting", "ssl"), ("hio.core.tcp.serving", "ssl"),
-             ("hio.core.udp.udping", "socket"), ("hio.core.memo.memoing", "uuid")]
+             ("hio.core.udp.udping", "socket"), ("hio.core.memo.memoing", "uuid"), ("hio.core.coring", "socket")]
     for modname, attr in seams:
         try:
             m = importlib.import_module(modname)
